@@ -65,6 +65,54 @@ def str_array(f, name):
     m = re.search(r"\(?\s*%s\s*\[\s*\]\s*\)?\s*=\s*\{(.*?)\}\s*;" % name, strip_comments(rd(f)), re.S)
     return re.findall(r'"([^"]*)"', m.group(1)) if m else []
 out.append("Definition hfield_names : list string := [%s]." % "; ".join(coq_str(x) + "%string" for x in str_array("hfield.c", "hname")))
+def func_body(f, name, nth=1):
+    """text of the nth '{...}' block that follows 'name(' at top level (K&R or ANSI definitions)"""
+    t = strip_comments(rd(f)); pos = 0
+    for _ in range(nth):
+        m = re.search(r"^[A-Za-z_][A-Za-z0-9_ \*]*\b%s\s*\(" % name, t[pos:], re.M)
+        if not m: return ""
+        pos += m.end()
+    i = t.find("{", pos)
+    if i < 0: return ""
+    depth = 0
+    for j in range(i, len(t)):
+        if t[j] == "{": depth += 1
+        elif t[j] == "}":
+            depth -= 1
+            if depth == 0: return t[i:j + 1]
+    return ""
+def defines(f):
+    return {m.group(1): int(m.group(2)) for m in re.finditer(r"^\s*#\s*define\s+(\w+)\s+(-?\d+)\s*$", rd(f), re.M)}
+def switch_table(body, syms, action):
+    """[(code, what)] for the 'case' labels of a switch: each label gets what action() finds in the statements that
+    follow it up to the next break/return/_exit; 'default' is code -1.  action(text) -> str or None"""
+    out = []; pending = []
+    toks = re.split(r"(\bcase\s+\w+\s*:|\bdefault\s*:)", body)
+    for k in range(1, len(toks), 2):
+        lab = toks[k]; stmt = toks[k + 1] if k + 1 < len(toks) else ""
+        m = re.match(r"case\s+(\w+)", lab)
+        code = -1 if not m else (int(m.group(1)) if m.group(1).lstrip("-").isdigit() else syms.get(m.group(1), -2))
+        pending.append(code)
+        a = action(stmt)
+        if a is not None:
+            out += [(c, a) for c in pending]; pending = []
+    return out
+def first_letter(stmt):
+    ls = re.findall(r'"([^"]*)"', stmt)
+    if not ls: return None
+    return "".join(sorted(set((x[:1] if x[:1] in ("K", "Z", "D") else "-") for x in ls)))
+def after(body, marker):
+    i = body.find(marker)
+    return body[i:] if i >= 0 else ""
+def exit_arg(stmt):
+    m = re.search(r"\b_exit\s*\(\s*(\d+)\s*\)|strerr_die\w*\s*\(\s*(\d+)", stmt)
+    if m: return m.group(1) or m.group(2)
+    if re.search(r"\bbreak\s*;", stmt): return "go-on"
+    return None
+def T(name, rows): out.append("Definition %s : list (Z * string) := [%s]." % (name, "; ".join("(%s, %s%%string)" % ("(%d)" % c if c < 0 else c, coq_str(a)) for c, a in rows)))
+T("lspawn_report_table", switch_table(after(func_body("qmail-lspawn.c", "report"), "wait_exitcode"), defines("qlx.h"), first_letter))
+T("qmail_close_table", switch_table(after(func_body("qmail.c", "qmail_close"), "switch"), {}, first_letter))
+T("local_program_exit_table", switch_table(after(func_body("qmail-local.c", "mailprogram"), "wait_exitcode"), {}, exit_arg))
 os.makedirs(os.path.join(V, "coq", "gen"), exist_ok=True)
 p = os.path.join(V, "coq", "gen", "Params_gen.v")
 txt = "\n".join(out) + "\n"
